@@ -213,6 +213,18 @@ class CollectResult(Unit):
             s2 = s.fork().assume(z3.Or(i < 1, i > 64))
             return [x for x in (('ok', s1, fresh('strsignal', z3.StringSort())), e.raise_new(s2, 'ValueError')) if e.feasible(x[1])]
         ex.globals['signal.strsignal'] = Fn(strsignal, trusted='signal.strsignal(n) raises ValueError unless n is a valid signal number (1..64)')
+
+        def signals_enum(e, s, a, k, n):
+            # the enum has a member only for the NAMED signals: 1..31, SIGRTMIN (34) and SIGRTMAX (64); any other number -- the real-time signals in
+            # between, 0, negatives (an exit code that is not a signal death) -- raises ValueError
+            from pyvc.core import as_int
+            i = as_int(e, s, a[0])
+            named = z3.Or(z3.And(i >= 1, i <= 31), i == 34, i == 64)
+            s1 = s.fork().assume(named)
+            s2 = s.fork().assume(z3.Not(named))
+            member = Rec(e, 'signal_member', immutable=True).init(s1, name=fresh('signal_name', z3.StringSort()), value=i)
+            return [x for x in (('ok', s1, member), e.raise_new(s2, 'ValueError')) if e.feasible(x[1])]
+        ex.globals['signal.Signals'] = Fn(signals_enum, trusted='signal.Signals(n) raises ValueError unless n is the number of a named signal')
         ex.globals['time'] = Module('time')
         ex.globals['multiprocessing'] = Module('multiprocessing')
         ex.globals['multiprocessing.connection'] = Module('multiprocessing.connection')
